@@ -90,7 +90,16 @@ func (x *Explorer) Note(key string, n int64) { x.sum.Extra[key] += n }
 
 // Exec runs one plan, aggregates reach counters and handles violations.
 func (x *Explorer) Exec(plan *Plan) *Result {
-	res := x.Prop.Run(x.T, plan, false)
+	keep := os.Getenv("VERIF_KEEPLOG_SEED") == fmt.Sprint(plan.Seed)
+	res := x.Prop.Run(x.T, plan, keep)
+	if keep {
+		if fh, err := os.OpenFile(os.Getenv("VERIF_DETLOG_FILE")+".log", os.O_APPEND|os.O_CREATE|os.O_WRONLY, 0o644); err == nil {
+			for _, l := range res.Log {
+				fmt.Fprintln(fh, l)
+			}
+			fh.Close()
+		}
+	}
 	s := x.sum
 	s.Runs++
 	if !res.Trivial {
@@ -102,7 +111,13 @@ func (x *Explorer) Exec(plan *Plan) *Result {
 		s.Cut++
 	}
 	x.inter[res.Inter] = struct{}{}
-	x.logx += Mix(res.LogHash, 0x10c) // order-insensitive: seeds may be explored in any order
+	x.logx += Mix(res.LogHash, 0x10c)
+	if f := os.Getenv("VERIF_DETLOG_FILE"); f != "" {
+		if fh, err := os.OpenFile(f, os.O_APPEND|os.O_CREATE|os.O_WRONLY, 0o644); err == nil {
+			fmt.Fprintf(fh, "%d %v %d %d cut=%v\n", plan.Seed, plan.Swarm, res.LogHash, res.Steps, res.Cut)
+			fh.Close()
+		}
+	} // order-insensitive: seeds may be explored in any order
 	for _, st := range res.States {
 		x.states[st] = struct{}{}
 	}
